@@ -211,10 +211,9 @@ func (n *Tree[V]) addNode(path string, wildcardKeys []string, inStaticToken bool
 	return child.addNode(remainingPath, wildcardKeys, token != '/')
 }
 
-//nolint:cyclop,funlen
-func (n *Tree[V]) delNode(path string, matcher ValueMatcher[V]) bool {
-	pathLen := len(path)
-	if pathLen == 0 {
+//nolint:cyclop,funlen,gocognit
+func (n *Tree[V]) delNode(path string, matcher ValueMatcher[V], inStaticToken bool) bool {
+	if len(path) == 0 {
 		if len(n.values) == 0 {
 			return false
 		}
@@ -237,43 +236,48 @@ func (n *Tree[V]) delNode(path string, matcher ValueMatcher[V]) bool {
 
 	token := path[0]
 
-	switch token {
-	case ':':
-		if n.wildcardChild == nil {
-			return false
-		}
-
-		child = n.wildcardChild
-		nextSeparator := n.nextSeparator(path)
-		nextPath = path[nextSeparator:]
-	case '*':
-		if n.catchAllChild == nil {
-			return false
-		}
-
-		child = n.catchAllChild
-		nextPath = ""
-	}
-
-	if child != nil {
-		if child.delNode(nextPath, matcher) {
-			if len(child.values) == 0 {
-				n.deleteChild(child, token)
+	// As in addNode, ':', '*' and '\\' have a special meaning at the beginning of a token only.
+	if !inStaticToken {
+		switch token {
+		case ':':
+			if n.wildcardChild == nil {
+				return false
 			}
 
-			return true
+			child = n.wildcardChild
+			nextSeparator := n.nextSeparator(path)
+			nextPath = path[nextSeparator:]
+		case '*':
+			if n.catchAllChild == nil {
+				return false
+			}
+
+			child = n.catchAllChild
+			nextPath = ""
 		}
 
-		return false
+		if child != nil {
+			if child.delNode(nextPath, matcher, false) {
+				if len(child.values) == 0 {
+					n.deleteChild(child, token)
+				}
+
+				return true
+			}
+
+			return false
+		}
+
+		if len(path) >= 2 &&
+			path[0] == '\\' &&
+			(path[1] == '*' || path[1] == ':' || path[1] == '\\') {
+			// The token starts with a character escaped by a backslash. Drop the backslash.
+			token = path[1]
+			path = path[1:]
+		}
 	}
 
-	if len(path) >= 2 &&
-		path[0] == '\\' &&
-		(path[1] == '*' || path[1] == ':' || path[1] == '\\') {
-		// The token starts with a character escaped by a backslash. Drop the backslash.
-		token = path[1]
-		path = path[1:]
-	}
+	pathLen := len(path)
 
 	for i, staticIndex := range n.staticIndices {
 		if token == staticIndex {
@@ -281,7 +285,7 @@ func (n *Tree[V]) delNode(path string, matcher ValueMatcher[V]) bool {
 			childPathLen := len(child.path)
 
 			if pathLen >= childPathLen && child.path == path[:childPathLen] &&
-				child.delNode(path[childPathLen:], matcher) {
+				child.delNode(path[childPathLen:], matcher, token != '/') {
 				if len(child.values) == 0 {
 					n.deleteChild(child, token)
 				}
@@ -491,7 +495,7 @@ func (n *Tree[V]) Add(path string, value V, opts ...AddOption[V]) error {
 }
 
 func (n *Tree[V]) Delete(path string, matcher ValueMatcher[V]) error {
-	if !n.delNode(path, matcher) {
+	if !n.delNode(path, matcher, false) {
 		return fmt.Errorf("%w: %s", ErrFailedToDelete, path)
 	}
 
